@@ -55,13 +55,13 @@ Example steady_example :
   forall off, 0 <= off < 3 -> In off (offs_of key (gfwd st1 ops2)).
 Proof.
   cbv zeta.
+  destruct (al_get str_eqb key (r_groups (gw_st ops1))) as [g1 |] eqn:Eg1; [| vm_compute in Eg1; discriminate].
+  destruct (al_get str_eqb key (r_groups (gw_st (ops1 ++ ops2)))) as [g2 |] eqn:Eg2; [| vm_compute in Eg2; discriminate].
+  destruct (glog (r_datalog (gw_st (ops1 ++ ops2))) key) as [d |] eqn:Ed; [| vm_compute in Ed; discriminate].
   assert (Er1 : run gw_st0 ops1 = Ok (gw_st ops1)) by (vm_compute; reflexivity).
   assert (Er2 : run (gw_st ops1) ops2 = Ok (gw_st (ops1 ++ ops2))) by (vm_compute; reflexivity).
   assert (Es : steady_b (gw_st ops1) ops2 = true) by (vm_compute; reflexivity).
   split; [exact Er1 |]. split; [exact Er2 |]. split; [exact Es |]. split; [vm_compute; reflexivity |].
-  destruct (al_get str_eqb key (r_groups (gw_st ops1))) as [g1 |] eqn:Eg1; [| vm_compute in Eg1; discriminate].
-  destruct (al_get str_eqb key (r_groups (gw_st (ops1 ++ ops2)))) as [g2 |] eqn:Eg2; [| vm_compute in Eg2; discriminate].
-  destruct (glog (r_datalog (gw_st (ops1 ++ ops2))) key) as [d |] eqn:Ed; [| vm_compute in Ed; discriminate].
   destruct cfg0_ok as [C1 C2].
   intros off Hoff.
   apply (run_complete_steady cfg0 gw_st0 ops1 (gw_st ops1) ops2 (gw_st (ops1 ++ ops2)) C1 C2 gw_init) with (g1 := g1) (g2 := g2) (d := d).
@@ -76,9 +76,10 @@ Proof.
   - exact Eg1.
   - exact Eg2.
   - exact Ed.
-  - intros c. vm_compute in Ed. inversion Ed; subst d. unfold stale. cbn [head d_log]. apply N.ltb_ge. lia.
-  - vm_compute in Eg1, Ed. inversion Eg1; subst g1. inversion Ed; subst d.
-    assert (E : end_of (d_log {| d_filter := [116]; d_log := _; d_waiters := _ |}) = 3) by (vm_compute; reflexivity).
-    cbn [g_cursor snd]. rewrite E. exact Hoff.
+  - assert (Eh : Rumqtt.Log.Model.head (d_log d) = 0) by (vm_compute in Ed; inversion Ed; subst d; vm_compute; reflexivity).
+    intros c. unfold stale. rewrite Eh. apply N.ltb_ge. lia.
+  - assert (Ec : snd (g_cursor g1) = 0) by (vm_compute in Eg1; inversion Eg1; subst g1; reflexivity).
+    assert (Ee : end_of (d_log d) = 3) by (vm_compute in Ed; inversion Ed; subst d; vm_compute; reflexivity).
+    rewrite Ec, Ee. exact Hoff.
 Qed.
 End C17CovExample.
